@@ -44,25 +44,34 @@ Section Inner.
     let k := ((length all - 1) / 16)%nat in
     let '(iv', o) := cbc_dec_blocks k (cb_iv c) (firstn (k * 16) all) in
     (mkCbc iv' (skipn (k * 16) all), o).
-  (* sm4_cbc_decrypt_finish: exactly one buffered block; padding byte 1..16 *)
+  (* the PKCS #7 loop of sm4_cbc_padding_decrypt (commit 75d04f0):
+     for (i = 16 - padding; i < 16; i++) if (block[i] != padding) return -1; *)
+  Definition pad_bytes_ok (block : list N) (pad : N) : bool :=
+    forallb (fun b => N.eqb b pad) (skipn (16 - N.to_nat pad) block).
+  (* sm4_cbc_decrypt_finish -> sm4_cbc_padding_decrypt: exactly one buffered block; padding
+     length 1..16 in the last byte and every padding byte equal to it *)
   Definition cbc_dec_finish (c : cbc_ctx) : res (list N) :=
     if negb (length (cb_buf c) =? 16)%nat then Err
     else
       let p := xor_bytes (D (cb_buf c)) (cb_iv c) in
       let pad := nth 15 p 0 in
       if (pad <? 1) || (16 <? pad) then Err
+      else if negb (pad_bytes_ok p pad) then Err
       else Ok (firstn (16 - N.to_nat pad) p).
 
   (* whole-message forms (Spec of the modes) *)
   Definition cbc_pad_encrypt (iv p : list N) : list N :=
     let pad := (16 - length p mod 16)%nat in
     snd (cbc_enc_blocks (length p / 16 + 1) iv (p ++ repeat (N.of_nat pad) pad)).
-  Definition cbc_pad_decrypt (iv c : list N) : res (list N) :=
+  (* strict = true : sm4_cbc_padding_decrypt (all padding bytes checked, since 75d04f0)
+     strict = false: aes_cbc_padding_decrypt (only the last byte is inspected) *)
+  Definition cbc_pad_decrypt (strict : bool) (iv c : list N) : res (list N) :=
     if ((length c =? 0) || negb (length c mod 16 =? 0))%nat then Err
     else
       let p := snd (cbc_dec_blocks (length c / 16) iv c) in
       let pad := nth (length c - 1) p 0 in
       if (pad <? 1) || (16 <? pad) then Err
+      else if strict && negb (pad_bytes_ok (skipn (length c - 16) p) pad) then Err
       else Ok (firstn (length c - N.to_nat pad) p).
 
   (* ---- CTR with the 128-bit counter increment (the sm4_ctr_encrypt family) ---- *)
@@ -160,7 +169,7 @@ Definition cbc_hmac_spec_encrypt (key iv aad p : list N) : list N :=
 Definition cbc_hmac_spec_decrypt (key iv aad inp : list N) : res (list N) :=
   if (length inp <? 32)%nat then Err
   else let c := firstn (length inp - 32) inp in
-       match cbc_pad_decrypt (sm4D (firstn 16 key)) iv c with
+       match cbc_pad_decrypt (sm4D (firstn 16 key)) true iv c with
        | Ok p => if bytes_eqb (sm3_hmac_spec (skipn 16 key) (aad ++ c)) (skipn (length inp - 32) inp) then Ok p else Err
        | _ => Err
        end.
@@ -171,6 +180,15 @@ Definition ctr_hmac_spec_decrypt (key iv aad inp : list N) : res (list N) :=
   else let c := firstn (length inp - 32) inp in
        if bytes_eqb (sm3_hmac_spec (skipn 16 key) (aad ++ c)) (skipn (length inp - 32) inp)
        then Ok (ctr128_crypt (sm4E (firstn 16 key)) iv c) else Err.
+
+(* history: before commit 75d04f0 sm4_cbc_padding_decrypt used the lax rule too; a block whose last
+   byte says "2 bytes of padding" but whose other padding byte is 7 was accepted *)
+Example cbc_padding_lax_rule_before_75d04f0 :
+  let blk := zeros 14 ++ [7; 2] in
+  cbc_pad_decrypt (fun x => x) false (zeros 16) blk = Ok (zeros 14) /\
+  cbc_pad_decrypt (fun x => x) true (zeros 16) blk = Err /\
+  cbc_pad_decrypt (fun x => x) true (zeros 16) (zeros 14 ++ [2; 2]) = Ok (zeros 14).
+Proof. vm_compute. repeat split; reflexivity. Qed.
 
 (* RFC 8998 appendix A.1 / A.2 (SM4-GCM, SM4-CCM): key, nonce, AAD, plaintext *)
 Definition rfc8998_key : list N := [0x01;0x23;0x45;0x67;0x89;0xAB;0xCD;0xEF;0xFE;0xDC;0xBA;0x98;0x76;0x54;0x32;0x10].
